@@ -165,7 +165,7 @@ def drive_cli(item):
         sel = ["Nonexistent*", "zzz_no_such_target"]
     obs = {"has_status": False, "has_subs": False, "has_dry": False, "status": {}, "subs": [], "dry": [], "err": ""}
     errs = []
-    prelude = variant % 6 == 4
+    prelude = variant % 6 == 4 or (bool(scn["hash"]) and variant % 2 == 0)
     if prelude:
         # an earlier `gwf run` whose first submission the scheduler rejected: nothing was accepted, so the project
         # state - tracked jobs, recorded specs - is what it was, and every decision below must come out the same
@@ -228,6 +228,13 @@ def drive_cli(item):
 
 def drive_cli_sample(ctx, scns, n, first_id, backends=("slurm", "sge", "lsf")):
     rng = random.Random(ctx.seed + 17)
-    pick = scns if len(scns) <= n else rng.sample(scns, n)
+    if len(scns) <= n:
+        pick = scns
+    else:
+        # half of the sample from the scenarios with spec hashing on (they are a minority of the generated ones)
+        hashed = [s for s in scns if s.get("hash")]
+        plain = [s for s in scns if not s.get("hash")]
+        k = min(len(hashed), n // 2)
+        pick = rng.sample(hashed, k) + rng.sample(plain, min(len(plain), n - k))
     items = [(first_id + k, s, ctx.seed * 7919 + k, backends[k % len(backends)]) for k, s in enumerate(pick)]
     return pmap(drive_cli, items, chunk=4)
